@@ -14,6 +14,7 @@ import time
 
 from harness import tlc
 from harness import design_util as du
+from harness import design_util_c08 as du8
 from harness.core import Machinery
 from harness.gnpy_util import EX, TD, NONE
 
@@ -48,9 +49,11 @@ SHIPPED_THOROUGH = SHIPPED_QUICK + SHIPPED_MORE + [
 ]
 
 
-def mc_cfg(tier, emit=True):
+def mc_cfg(tier, emit=True, emit_ext=False):
+    """emit: list the single-use cases (shared with C17); emit_ext: list the cases in which the designed network object is
+    extended and designed again"""
     base = (tlc.SPEC / 'MC_DesignStructure.cfg').read_text().replace('Tier = "quick"', f'Tier = "{tier}"')
-    return base + ('INVARIANT Emit\n' if emit else '')
+    return base + ('INVARIANT Emit\n' if emit else '') + ('INVARIANT EmitExt\n' if emit_ext else '')
 
 
 def features(case):
@@ -60,6 +63,8 @@ def features(case):
     raman_after_roadm = any(e['t'] == 'Roadm' and any(case['g'][j - 1]['t'] == 'RamanFiber' for j in e['s'])
                             for e in case['g'])
     per_freq = any(e.get('ct') for e in case['g'])
+    if case.get('x'):          # second use of the network object
+        return features(dict(case, x=None)) + '|extended-and-designed-again'
     opts = sorted({e['o'] for e in case['g'] if e.get('o') and e['o'] != 'pmd'})
     if opts:          # user parameters beyond the basic ones: the class of the case is that parameter
         return '|'.join(f'opt={o}' for o in opts) + ('' if case['s'].get('insert', True) else '|no_insert_edfas')
@@ -103,6 +108,8 @@ def case_name(case):
                 x = g[x['s'][0] - 1]
             chains.append(f"{e['n'][-1]}{x['n'][-1]}:" + '-'.join(parts))
     s = case['s']
+    if case.get('x'):          # the designed network is extended in memory and designed again
+        chains.append('then ' + ' '.join(f"+F{str(x['e']['l'] / 1000).rstrip('0').rstrip('.')} behind {x['at']}" for x in case['x']))
     chains = [f"{e['n']}+{e['o']}" for e in g if e['t'] == 'Roadm' and e.get('o')] + chains
     return ' '.join(chains) + f" | pad={s['padding'] // 1000000} eol={s['eol'] // 1000000} " \
                               f"max={s['maxLen'] // 1000} {'power' if s['powerMode'] else 'gain'}" \
@@ -122,6 +129,9 @@ def _b2_one(c):
     s['maxLen'] = s['maxLen'] * 100                         # the model counts metres, observations are in cm
     try:
         # amplifier insertion off = the public entry point's no_insert_edfas=True
+        if c.get('x'):
+            before, ev = du8.design_extend_design(topo, eq, c, no_insert_edfas=not s.get('insert', True))
+            return dict(name=name, s=s, inp=before, ev=ev, _case=c, _topo=topo), None
         before, names, net, _, _ = du.design(topo, eq, no_insert_edfas=not s.get('insert', True))
         g = du.project_network(net, names)
     except Machinery:
@@ -206,13 +216,13 @@ def run(chk):
     t0 = time.time()
     w = min(int(os.environ.get('VERIF_TLC_WORKERS', '16')), 6)       # ~20-400 k states: more workers only add contention
     if tier == 'thorough':
-        r = tlc.run('MC_DesignStructure', cfg_text=mc_cfg(tier), timeout=3000, tag='c08-mc', workers=w)
+        r = tlc.run('MC_DesignStructure', cfg_text=mc_cfg(tier, emit_ext=True), timeout=3000, tag='c08-mc', workers=w)
         chk.add_mc(f'MC_DesignStructure Tier={tier} (all C08 clauses as invariants)', r)
         cases = r.emitted
     else:
         r = tlc.run('MC_DesignStructure', cfg_text=mc_cfg('b1quick', emit=False), timeout=3000, tag='c08-mc', workers=w)
         chk.add_mc('MC_DesignStructure Tier=b1quick (all C08 clauses as invariants)', r)
-        e = tlc.run('MC_DesignStructure', cfg_text=mc_cfg('quick') + 'CONSTRAINT InitialOnly\n', timeout=3000,
+        e = tlc.run('MC_DesignStructure', cfg_text=mc_cfg('quick', emit_ext=True) + 'CONSTRAINT InitialOnly\n', timeout=3000,
                     tag='c08-emit', workers=w)
         if not e.ok:
             raise Machinery(f'case enumeration failed: {e.error}')
@@ -226,7 +236,7 @@ def run(chk):
         # sample of the listed cases that the real code designs in the quick tier: the max_length = 150 km quarter of the
         # half fraction (padding, EOL, mode pairwise complete; SI band and length unit are functions of them) for every
         # topology, the 80 km quarter too where a fibre of 95 km or more has to be split differently
-        cases = [c for c in cases if c['s']['maxLen'] > 100000 or any(e['l'] >= 95000 for e in c['g'])]
+        cases = [c for c in cases if c['s']['maxLen'] > 100000 or any(e['l'] >= 95000 for e in c['g']) or c.get('x')]
         big = sorted((c for c in cases if sum(1 for e in c['g'] if e['t'] == 'Roadm') > 2), key=case_name)
         drop = {case_name(c) for k, c in enumerate(big) if k % 3 != chk.seed % 3}       # a third of the 3-ROADM cases
         cases = [c for c in cases if case_name(c) not in drop]
@@ -296,6 +306,10 @@ def run(chk):
                'loss / dispersion overrides; already split spans; user-complete line systems (also with '
                'no_insert_edfas); C+L multiband sites; 140 km under a design power sweep; settings padding 0/10, EOL 0/1, '
                'max_length 80/(100)/150 km given in km or m, power/gain mode, SI band inside / equal to the amplifier band; '
+               'links given as two / three directly connected sections that are each longer than the maximum; '
+               'second use of a network object (DesignStructure.Extend): a designed 2-ROADM network gets a 400 km '
+               'section (behind a plain 80 km fibre also 20 km, or 400 + 151 km) behind the last fibre of line A -> B in memory and is designed again, both '
+               'designs judged, the second against the extended graph it was given; '
                'the reverse direction carries the mirrored chain (plain 80 km fibre opposite a Raman chain)')
     chk.assume('quick tier: TLC checks the model exhaustively under two settings per 2-ROADM topology and lists the half '
                'fraction of the settings; the real code designs the 150 km quarter of them (80 km quarter too for fibres '
@@ -319,11 +333,13 @@ W5 == ~(Designed /\ \E i \in Amps(g) : i \notin Added(inp, g) /\ inp[i].sub[1].g
 W6 == ~(Designed /\ \E i \in Fibres(g) : g[Next1(g, i)].type = "Fused" /\ cfg.eol > 0 /\ g[i].conOut = cfg.conOut)
 W7 == ~(Designed /\ \E i \in Nodes(g), j \in Nodes(g) : g[i].type = "Fused" /\ j \in g[i].succ /\ IsFib(g[j]))
 W8 == ~(Designed /\ ~cfg.powerMode /\ \E i \in Amps(g) : g[i].sub[1].dp = NONE)
+W9 == ~(Designed /\ round = 2 /\ \E i \in Added(inp, g) : IsFib(g[i]) /\ IsAmp(g[Prev1(g, i)]) /\ Prev1(g, i) \in Added(inp, g))
+W10 == ~(Designed /\ \E i \in Fibres(inp), j \in Fibres(inp) : j \in inp[i].succ /\ inp[i].len > cfg.maxLen /\ inp[j].len > cfg.maxLen)
 ====
 '''
     base = '\n'.join(ln for ln in mc_cfg('quick', emit=False).splitlines() if not ln.startswith('INVARIANT'))
     found = []
-    for w in ['W1', 'W2', 'W3', 'W4', 'W5', 'W6', 'W7', 'W8']:
+    for w in ['W1', 'W2', 'W3', 'W4', 'W5', 'W6', 'W7', 'W8', 'W9', 'W10']:
         r = tlc.run('VacDS', cfg_text=base + f'\nINVARIANT {w}\n', extra_modules={'VacDS': mod}, timeout=900,
                     tag='c08-vac')
         if r.violated != w:
